@@ -484,22 +484,21 @@ def matcher_leaves(ctx):
                 verdict(ctx, R, ok, '%s/reports-[j,j+len)-only-where-rigid_match_at-holds' % name, fn, {'returned': safe_show(ip, o)[:200]}, cfg)
             verdict(ctx, R, nf >= 1, '%s/found-leaf-present' % name, fn, None, cfg)
     for cfg in ('dev', 'rel'):
-        log = calllog.run(ctx, cfg, RE_ + 'char_sets_of_pattern')
-        ip, fn = log.ip, log.fn
-        okit = len(log.iterations) >= 1
-        for it in log.iterations:
-            pos = [hv for hv, ev in it.mapping if hv[0] == 'var' and '.pos@' in hv[1]]
-            ok = len(pos) == 1 and not it.calls and ip.entails(it.state, discr(('fld', ('elem', A(0), pos[0]), 'expr'), 2))
+        # in closed form (push loop or map().collect()):  [ (p.expr as Range).0  for p in pattern ]
+        an = analyse(ctx, cfg, RE_ + 'char_sets_of_pattern', [], uninterpreted=lambda q: True)
+        ip, fn = an.ip, an.fn
+        nret = 0
+        for o in an.outs:
+            if o.kind != 'ret':
+                continue     # the unreachable!() for an element that is not a Range
+            nret += 1
+            t = ip.to_term(o.state, o.value)
+            ok = isinstance(t, tuple) and t[0] == 'map' and t[1] == A(0)
             if ok:
-                # exactly one element appended per iteration: the set of that Range
-                vecs = [c.v for c in it.state.frames[-1].cells if isinstance(c.v, X.ListV)]
-                ok = any(len(v_.parts) >= 1 and v_.parts[-1][0] == 'one' and 'Range' in T.show(v_.parts[-1][1]) and T.show(pos[0]) in T.show(v_.parts[-1][1]) and
-                         (len(v_.parts) == 1 or v_.parts[-2][0] != 'one') for v_ in vecs)
-            okit = okit and ok
-        verdict(ctx, R, okit, 'char_sets_of_pattern/one-set-per-element-the-set-of-that-Range', fn, None, cfg)
-        for o in log.outs:
-            if o.kind == 'ret':
-                verdict(ctx, R, loop_exhausted(ip, o.state), 'char_sets_of_pattern/every-element-visited', fn, {'leaf_constraints': pc_text(o)[-3:]}, cfg)
+                el = ('fld', ('elem', A(0), t[2]), 'expr')
+                ok = t[3] == ('vfld', el, 'Range', '0')
+            verdict(ctx, R, ok, 'char_sets_of_pattern/one-set-per-element-the-set-of-that-Range', fn, {'returned': T.show(t)[:300]}, cfg)
+        verdict(ctx, R, nret >= 1, 'char_sets_of_pattern/every-element-visited', fn, None, cfg)
     accessor(ctx, R, RE_ + 'BasePattern::len', [(None, T.mk_sub(T.fld(A(0), 'end', 'usize'), T.fld(A(0), 'start', 'usize')), {})], assume=[le(T.fld(A(0), 'start', 'usize'), T.fld(A(0), 'end', 'usize'))], name='BasePattern::len')
     accessor(ctx, R, RE_ + 'BasePattern::make', [(None, ('mk', 'regular_expressions::BasePattern', 'BasePattern', (T.var('a0', 'usize'), T.var('a1', 'usize'), T.var('a2', 'bool'), I(0), I(0))), None)],
              assume=[lt(T.var('a0', 'usize'), T.var('a1', 'usize'))], name='BasePattern::make')
